@@ -40,7 +40,7 @@ func observeNonFinite(t *testing.T) {
 		mk := func() []*scriptedClock {
 			return []*scriptedClock{{steps: []step{{kind: "ok", val: time.Duration(off), delay: time.Microsecond}}}}
 		}
-		res := runOnce(t, cfg, 2, time.Millisecond, 1, mk(), mk(), nil)
+		res := runOnce(t, cfg, 2, time.Millisecond, 1, mk(), mk(), nil, nil)
 		o := obsRec{Ri: fmt.Sprint(c[0]), Pi: fmt.Sprint(c[1]), Refused: res.panicked, Offset: off, Corr: []int64{},
 			Note: "observation only: C01 does not say whether non-finite factors are admissible"}
 		for _, ob := range res.rec.rounds {
@@ -57,7 +57,7 @@ func observeNonFinite(t *testing.T) {
 	cfg := sync.Config{ReferenceClockImpact: 1.7, PeerClockImpact: 3.0, PeerClockCutoff: 8,
 		SyncTimeout: 2 * time.Millisecond, SyncInterval: 10 * time.Millisecond}
 	refs := []*scriptedClock{{steps: []step{{kind: "ok", val: time.Duration(off), delay: time.Microsecond}}}}
-	res := runOnce(t, cfg, 1, time.Millisecond, 1, refs, nil, nil)
+	res := runOnce(t, cfg, 1, time.Millisecond, 1, refs, nil, nil, nil)
 	o := obsRec{Ri: "1.7", Pi: "3", Refused: res.panicked, Offset: off, Corr: []int64{},
 		Note: "cap 1.7 x 10 ns is not exactly representable: float64 product rounds to 17.0; exact product of the " +
 			"float64 factor is 16.99999999999999955591 ns (sub-ulp excess, observation only)"}
